@@ -6,7 +6,9 @@ import (
 	"encoding/hex"
 	"net"
 	"reflect"
+	"runtime"
 	"strings"
+	"sync"
 
 	"github.com/miekg/dns"
 	. "verif/harness/common"
@@ -577,6 +579,83 @@ func run(r *Rng, tier string, n int) {
 			if got := isDup(a, own1); got != "ok:true" && t != dns.TypeOPT {
 				Viol("C20/wire/receive-buffer-reused/"+dns.TypeToString[t], "a record decoded from a buffer that was reused afterwards is no longer a duplicate of the same record decoded from its own buffer: "+got, map[string]string{"a": own1.String(), "now": a.String()})
 			}
+		}
+	}
+	// IsDuplicate and Dedup called from many goroutines at once, each on lists and records of its own: every
+	// result equals the one computed sequentially beforehand (a correct library gives it under any schedule)
+	{
+		type job struct {
+			list []dns.RR
+			want string
+		}
+		show := func(out []dns.RR) string {
+			var sb strings.Builder
+			for _, rr := range out {
+				sb.WriteString(rr.String())
+				sb.WriteByte('\n')
+			}
+			return sb.String()
+		}
+		mk := func(g, i int) []dns.RR {
+			var l []dns.RR
+			for k := 0; k < 5; k++ {
+				name := "Host" + Itoa(g) + "-" + Itoa(i%7) + ".Example.org."
+				if k%2 == 1 {
+					name = strings.ToLower(name)
+				}
+				rr, _ := dns.NewRR(name + " " + Itoa(300-k*10+g) + " IN TXT \"job " + Itoa(g) + "/" + Itoa(i%7) + "/" + Itoa(k/2) + "\"")
+				l = append(l, rr)
+			}
+			return l
+		}
+		const G, N = 8, 400
+		jobs := make([][]job, G)
+		for g := 0; g < G; g++ {
+			for i := 0; i < N; i++ {
+				l := mk(g, i)
+				cp := make([]dns.RR, len(l))
+				for k := range l {
+					cp[k] = dns.Copy(l[k])
+				}
+				jobs[g] = append(jobs[g], job{list: l, want: show(dns.Dedup(cp, nil))})
+			}
+		}
+		if runtime.GOMAXPROCS(0) < 4 {
+			runtime.GOMAXPROCS(4)
+		}
+		var wg sync.WaitGroup
+		var mu sync.Mutex
+		bad := map[string]string{}
+		start := make(chan struct{})
+		for g := 0; g < G; g++ {
+			wg.Add(1)
+			go func(g int) {
+				defer wg.Done()
+				<-start
+				for _, j := range jobs[g] {
+					got, dup := "", false
+					if res := Protect(func() string {
+						got = show(dns.Dedup(j.list, nil))
+						dup = dns.IsDuplicate(j.list[0], j.list[0])
+						return "ok"
+					}); res != "ok" {
+						got = res
+					}
+					if got != j.want || !dup {
+						mu.Lock()
+						if len(bad) < 3 {
+							bad[j.want] = got
+						}
+						mu.Unlock()
+					}
+				}
+			}(g)
+		}
+		close(start)
+		wg.Wait()
+		st["concurrent_dedup_jobs"] = G * N
+		for want, got := range bad {
+			Viol("C20/Dedup/concurrent", "Dedup called from 8 goroutines on lists of their own gives another result than the same call alone", map[string]string{"alone": want, "concurrent": got})
 		}
 	}
 	// Dedup when the SAME record value occurs more than once in the list (a cached record appended twice)
